@@ -219,10 +219,10 @@ impl<Octs: AsRef<[u8]> + ?Sized> Txt<Octs> {
 
     /// Returns the content if it consists of a single character string.
     pub fn as_flat_slice(&self) -> Option<&[u8]> {
-        if usize::from(self.0.as_ref()[0]) == self.0.as_ref().len() - 1 {
-            Some(&self.0.as_ref()[1..])
-        } else {
-            None
+        let slice = self.0.as_ref();
+        match slice.split_first() {
+            Some((&len, tail)) if usize::from(len) == tail.len() => Some(tail),
+            _ => None,
         }
     }
 
